@@ -15,9 +15,9 @@ from . import common
 LEVEL = "model_checking"
 NAMES = ("a", "b", "c")
 ABSENT = "zz"
-MAXROWS = 5
-PATTERN = ("c", "b", "a", "c", "b")
-KCOL = ("b", "b", "a", "c", "a")
+MAXROWS = 5          # short tables grow up to this many rows
+PATTERN = ("c", "b", "a", "c", "b") * 6
+KCOL = ("b", "b", "a", "c", "a") * 6
 
 
 class Model:
@@ -84,6 +84,7 @@ def universe(tier):
             ("cellk", 0, "a"),
             ("delidx", "del"), ("delidx", "pop"), ("readd", "item"), ("readd", "attr")]
     ops += [("probe", p) for p in PROBES]
+    ops += [("labels",)]
     return ops
 
 
@@ -123,7 +124,7 @@ class System(simple.SimpleSystem):
                 continue
             if k in ("vcell", "cellk") and (op[1] >= n or (k == "cellk" and "k" not in m.cols)):
                 continue
-            if k == "append" and n >= MAXROWS:
+            if k == "append" and (n >= MAXROWS and n < 10 or n >= len(self.init) + 2 and n >= 10):
                 continue
             if k == "delcol" and op[1] not in m.cols:
                 continue
@@ -216,6 +217,11 @@ class System(simple.SimpleSystem):
                 setattr(t, m.index, val)
             m.cols[m.index] = list((PATTERN + PATTERN)[1:n + 1])
             m.order.append(m.index)
+        elif k == "labels":
+            # a query: the unique row labels (it may fill a cache of its own)
+            live["labels_seen"] = [str(x) for x in t.cols.get_index_unique()]
+            if n:
+                t.show(output=str, maxwidth="full")
         elif k == "probe":
             name, count, off = parse_row(op[1])
             pos = resolve(m.icol(), name, count, off)
@@ -265,6 +271,8 @@ class System(simple.SimpleSystem):
             return f"t[t._index] = {v}" if op[1] == "item" else f"setattr(t, t._index, {v})"
         if k == "probe":
             return f"t['v', {op[1]!r}]   # lookup (builds the cache)"
+        if k == "labels":
+            return "t.cols.get_index_unique(); t.show(output=str)   # query"
         return repr(op)
 
     # ---- oracles
@@ -308,8 +316,29 @@ class System(simple.SimpleSystem):
         def bad(what):
             issues.append(self.issue(hist, op, what, {"index_column": list(col), "index": m.index}))
 
+        # the unique labels FIRST, before any by-name lookup refreshes a cache: name if it occurs once, else name::k
+        cnt = {}
+        for x in col:
+            cnt[x] = cnt.get(x, 0) + 1
+        seen = {}
+        want_labels = []
+        for x in col:
+            k_ = seen.get(x, 0)
+            seen[x] = k_ + 1
+            want_labels.append(str(x) if cnt[x] == 1 else f"{x}::{k_}")
+        got_labels = [str(x) for x in t.cols.get_index_unique()]
+        if got_labels != want_labels:
+            bad(f"get_index_unique() reports {got_labels!r}; the current index column {col!r} gives {want_labels!r}")
+            return issues
+        if n:
+            shown = [ln.split()[0] for ln in t.show(output=str, maxwidth="full").split("\n")[1:]]
+            if shown != want_labels:
+                bad(f"show() prints row labels {shown!r}; the current index column {col!r} gives {want_labels!r}")
+                return issues
+
+        maxc = max(3, max(cnt.values(), default=0) + 1)
         for name in NAMES + (ABSENT,):
-            for count in (None, -3, -2, -1, 0, 1, 2, 3):
+            for count in (None,) + tuple(range(-maxc, maxc + 1)):
                 for off in (0, -1, 1):
                     pos = resolve(col, name, count, off)
                     if pos is not None and not (0 <= pos < n):
@@ -381,8 +410,9 @@ class System(simple.SimpleSystem):
         return issues
 
 
-INITS_QUICK = [(), ("a",), ("a", "b", "a")]
-INITS_THOROUGH = [(), ("a",), ("a", "b", "a"), ("b", "a", "a", "b"), ("a", "a")]
+LONG = tuple("abcabacbbacabcaabcbbca")      # 21 rows, every name repeated (sorting-based cache builds need > 16 rows to go wrong)
+INITS_QUICK = [(), ("a",), ("a", "b", "a"), LONG]
+INITS_THOROUGH = [(), ("a",), ("a", "b", "a"), ("b", "a", "a", "b"), ("a", "a"), LONG, tuple("ccbbaacbacbacbaabbccabcabc")]
 
 
 def plan(tier, seed):
@@ -390,9 +420,10 @@ def plan(tier, seed):
     inits = INITS_QUICK if tier == "quick" else INITS_THOROUGH
     depth = 4 if tier == "quick" else 6
     for init in inits:
-        jobs.append({"name": f"bfs:{','.join(init) or 'empty'}:d{depth}", "mode": "pure", "hashseed": seed % 2 ** 32,
+        d_ = depth if len(init) < 10 else (2 if tier == "quick" else 3)
+        jobs.append({"name": f"bfs:{''.join(init) or 'empty'}:d{d_}", "mode": "pure", "hashseed": seed % 2 ** 32,
                      "nproc": 5 if tier == "quick" else 16, "timeout": 3300,
-                     "args": {"init": init, "tier": tier, "depth": depth, "time_cap": 2400}})
+                     "args": {"init": init, "tier": tier, "depth": d_, "time_cap": 2400}})
     return {"level": LEVEL, "jobs": jobs,
             "assumptions": ["row names avoid the separator substrings '::', '<<', '>>'",
                             "offsets are only generated when they land inside the table",
